@@ -2,8 +2,8 @@ package ntfnsim
 
 import (
 	"fmt"
+	"os"
 	"runtime/debug"
-	"sort"
 	"testing/synctest"
 
 	"github.com/btcsuite/btcd/chainhash/v2"
@@ -24,21 +24,21 @@ type Knobs struct {
 	MaxSteps   int
 	MaxClients int
 
-	PInclude    int // a candidate tx enters a new block with probability 1/PInclude
-	ConnectW    int
-	DisconnectW int
-	StickyW     int // extra disconnect weight right after a disconnect (deep reorgs)
-	RegisterW   int
-	CancelW     int
-	ScanW       int
-	DeliverW    int
-	RestartW    int
-	ReadW       int
-	FaultW      int
-	SplitDen    int // 0: never split ConnectTip/NotifyHeight; else 1/SplitDen
-	LazyDen     int // 0: all clients prompt; else a client is lazy with probability 1/LazyDen
+	PInclude     int // a candidate tx enters a new block with probability 1/PInclude
+	ConnectW     int
+	DisconnectW  int
+	StickyW      int // extra disconnect weight right after a disconnect (deep reorgs)
+	RegisterW    int
+	CancelW      int
+	ScanW        int
+	DeliverW     int
+	RestartW     int
+	ReadW        int
+	FaultW       int
+	SplitDen     int  // 0: never split ConnectTip/NotifyHeight; else 1/SplitDen
+	LazyDen      int  // 0: all clients prompt; else a client is lazy with probability 1/LazyDen
 	StaleDeliver bool // deliver rescan answers that name a block no longer on the chain
-	BadHints    bool // allow client hints above the actual inclusion height
+	BadHints     bool // allow client hints above the actual inclusion height
 }
 
 // reqState is the simulator's bookkeeping for one notification request
@@ -61,13 +61,13 @@ type reqState struct {
 
 	// epoch state
 	registered  bool
-	firstRegSeq int     // event counter when the notifier started watching it
-	outstanding *rescan // a HistoricalDispatch handed out and not yet answered
-	dropped     bool    // its rescan failed in the backend: never answered
+	firstRegSeq int        // event counter when the notifier started watching it
+	outstanding *rescan    // a HistoricalDispatch handed out and not yet answered
+	dropped     bool       // its rescan failed in the backend: never answered
 	grp         *hintGroup // requests sharing one persisted hint (the cache keys conf hints by txid alone)
-	multi       bool    // more than one matching tx was on the chain at once (script reuse): semantics left open
-	stale       bool    // a stale rescan answer naming a vanished block was delivered
-	orphan      bool    // a positive rescan answer arrived while no client was subscribed any more
+	multi       bool       // more than one matching tx was on the chain at once (script reuse): semantics left open
+	stale       bool       // a stale rescan answer naming a vanished block was delivered
+	orphan      bool       // a positive rescan answer arrived while no client was subscribed any more
 }
 
 // judged reports whether the liveness/hint obligations apply to the request.
@@ -189,8 +189,8 @@ type Sim struct {
 	cur callCtx
 
 	// evidence
-	notices  int // reorg notices observed
-	retold   int // confirmations/spends observed after a notice
+	notices    int // reorg notices observed
+	retold     int // confirmations/spends observed after a notice
 	steps      int
 	faultHit   bool
 	faultArmed bool
@@ -307,6 +307,9 @@ func (s *Sim) call(what string, f func() error) error {
 		}
 		if !tainted {
 			s.R.Count("probe_call_blocked_untainted")
+			if os.Getenv("VERIF_NTFN_STRICT_BLOCK") != "" {
+				s.R.Fail("blocked-on-slow-client", "%s blocks (holding the notifier lock) on a send to a client that has not read its channels yet, although the channels are sized so that sends never block (strict mode VERIF_NTFN_STRICT_BLOCK)", what)
+			}
 		}
 		s.R.Logf("  .. %s is blocked sending on a client channel", what)
 		// A slow client reads eventually: let the lazy ones drain.
@@ -913,14 +916,4 @@ func (s *Sim) checkHints() {
 			continue
 		}
 	}
-}
-
-// sortedReqKeys is used when map order would otherwise leak into choices.
-func sortedReqKeys(m map[string]*reqState) []string {
-	ks := make([]string, 0, len(m))
-	for k := range m {
-		ks = append(ks, k)
-	}
-	sort.Strings(ks)
-	return ks
 }
